@@ -108,7 +108,7 @@ class Ctx:
             lines.append(extra_cfg)
         open(cfg, "w").write("\n".join(lines) + "\n")
         rc, out = sv.tlc(module, cfg=cfg, workers=workers, timeout=timeout, metaname=name,
-                         coverage=True)
+                         coverage=not self.quick)
         if not sv.tlc_ok(rc, out):
             raise sv.ToolError("TLC on %s (%s) did not complete cleanly (rc=%d):\n%s"
                                % (module, name, rc, sv.tlc_error_text(out) or "\n".join(out[-15:])))
@@ -156,6 +156,10 @@ class Ctx:
                     script = None
             if b["kind"] == "render-error":
                 raise sv.ToolError("renderer failed on %s: %s" % (b["key"], b.get("error")))
+            if b["kind"] == "stderr-form":
+                self.violation("malformed diagnostic (%s %s): %s" % (name, b["key"], b.get("detail")),
+                               script=script, detail=b, prop="C17" if self.prop != "C03" else "C03")
+                continue
             if b["kind"] == "behaviour":
                 what = "implementation differs from the specification on a generated program (%s %s)" \
                     % (name, b["key"])
@@ -264,6 +268,10 @@ def corpus_validate(ctx, scripts, name, prop=None):
             ctx.skip("overflow of the model's 31-bit range (covered by C06)")
             continue
         exp = sv.expected(o, names[i])
+        form = sv.stderr_form(se, names[i], code)
+        if form:
+            ctx.violation("malformed diagnostic (%s): %s" % (label, form), script=text,
+                          detail={"stderr": se.decode(errors="replace"), "exit": code}, prop="C17")
         n += 1
         ctx.evaluations += 1
         ctx.validated += 1
@@ -494,7 +502,25 @@ def c14(ctx):
     corpus_validate(ctx, scripts, "c14tests")
 
 
+def c17(ctx):
+    md = 2 if ctx.quick else 4
+    ctx.rule = ("39 failing expressions (every expression-level error kind) x 22 hosting positions (statement, "
+                "declaration / assignment / op-assignment right-hand side, index target, if / else-if / while "
+                "condition, for iterable, return expression, argument, callee, index, range bound, list item, "
+                "spread, object key / value, interpolation slot, operand, receiver, print argument) at depth 0-1; "
+                "x 5 hosts x 5 wrappers (named chain, anonymous function in a variable, method, inside a loop, "
+                "inside a bare block) x call depth 0..%d x 0..2 completed prints; 38 failing statements x wrappers "
+                "x depths; every stderr byte-exact against SeedDiag, plus a specification-independent form check; "
+                "non-trivial = every case (all fail); distinct = distinct parameter tuples" % md)
+    out = ctx.run_model("MC_C17", "C17Params", invariants=["C17Laws"], props=["OutputMonotone"],
+                        constants={"MaxDepth": "= %d" % md})
+    ctx.replay(out, "c17", seeds=(None,) if ctx.quick else (None, ctx.seed))
+    scripts = [s for s in repo_test_scripts() if "error" in s[0] or "stacktrace" in s[0]]
+    corpus_validate(ctx, scripts, "c17tests")
+
+
 REGISTRY = {
+    "C17": c17,
     "C13": c13,
     "C14": c14,
     "C04": c04,
